@@ -29,6 +29,10 @@ size_t strlen(const char *s) { size_t n = 0; while (s[n] != 0) { n++; } return n
 //@slice src/chunk.h fn Chunk::GetOrigPrevSp
 //@slice src/chunk.h fn Chunk::SetOrigPrevSp
 //@slice src/chunk.h fn Chunk::SetNlCount
+#ifdef CR_STRING
+//@slice src/chunk.h fn Chunk::GetNlCount ifdef=CR_STRING
+void UncText::append(int ch) { }
+#endif
 //@slice src/chunk.h fn Chunk::SetAfterTab
 //@slice src/chunk.h fn Chunk::Str
 //@slice src/chunk.cpp fn Chunk::SetType
@@ -58,6 +62,13 @@ extern "C" {
 //@slice src/tokenizer/tokenize.cpp fn parse_bs_newline
 //@slice src/tokenizer/tokenize.cpp fn parse_newline
 //@slice src/tokenizer/tokenize.cpp fn parse_off_newlines
+#ifdef CR_STRING
+// proof parse_cr_string: the raw-string tokenizer. tag_compare is replaced by its proved contract; parse_suffix (literal suffix after the closing quote) by a contract
+// "only moves the cursor forward, inside the data"; what is appended to the chunk text is not tracked here (no-op append).
+bool tag_compare(const deque_int &d, size_t a_idx, size_t b_idx, size_t len) { return nondet_bool(); }
+void parse_suffix(TokenContext &ctx, Chunk &pc, bool forstring = false) { }
+//@slice src/tokenizer/tokenize.cpp fn parse_cr_string ifdef=CR_STRING
+#endif
 // the tail of tokenize(): choice of cpd.newline (fragment, wrapped into a function of its own)
 void tokenize_tail()
 {
@@ -72,7 +83,7 @@ extern const unsigned long OFF_TokenInfo_idx = (unsigned long)&(((TokenInfo*)0)-
 extern const unsigned long OFF_TokenInfo_row = (unsigned long)&(((TokenInfo*)0)->row);
 extern const unsigned long OFF_TokenInfo_col = (unsigned long)&(((TokenInfo*)0)->col);
 extern const unsigned long SIZEOF_TokenContext = sizeof(TokenContext);
-extern const unsigned CT_NEWLINE_V = CT_NEWLINE, CT_WHITESPACE_V = CT_WHITESPACE, CT_NL_CONT_V = CT_NL_CONT, CT_IGNORED_V = CT_IGNORED;
+extern const unsigned CT_NEWLINE_V = CT_NEWLINE, CT_WHITESPACE_V = CT_WHITESPACE, CT_NL_CONT_V = CT_NL_CONT, CT_IGNORED_V = CT_IGNORED, CT_STRING_V = CT_STRING, CT_STRING_MULTI_V = CT_STRING_MULTI;
 }
 #define CANARY(msg) __CPROVER_assert(0, "VACUITY_CANARY " msg)
 extern "C" {
@@ -81,5 +92,8 @@ void h_parse_newline() { deque_int d; TokenContext ctx(d); bool r = parse_newlin
 void h_parse_bs_newline() { deque_int d; TokenContext ctx(d); Chunk pc; bool r = parse_bs_newline(ctx, pc); if (r) { CANARY("parse_bs_newline true"); } else { CANARY("parse_bs_newline false"); } }
 void h_parse_whitespace() { deque_int d; TokenContext ctx(d); Chunk pc; bool r = parse_whitespace(ctx, pc); if (r) { CANARY("parse_whitespace true"); } else { CANARY("parse_whitespace false"); } }
 void h_parse_off_newlines() { deque_int d; TokenContext ctx(d); Chunk pc; bool r = parse_off_newlines(ctx, pc); if (r) { CANARY("parse_off_newlines true"); } else { CANARY("parse_off_newlines false"); } }
+#ifdef CR_STRING
+void h_parse_cr_string() { deque_int d; TokenContext ctx(d); Chunk pc; bool r = parse_cr_string(ctx, pc, nondet_size_t()); if (r) { CANARY("parse_cr_string true"); } else { CANARY("parse_cr_string false"); } }
+#endif
 void h_tokenize_tail() { tokenize_tail(); CANARY("tokenize_tail returns"); }
 }
